@@ -31,7 +31,8 @@ macro_rules! rel {
 /// optional free-text field (Option<String>)
 macro_rules! text {
     ($name:literal, $a:literal, $b:literal) => {
-        f!($name, false, [$a, $b], Exact, None)
+        // (the third value: two-, three- and four-byte characters)
+        FieldSpec { name: $name, mandatory: false, valid: &[$a, $b, concat!($a, " \u{e9}\u{20ac}\u{1f600}")], norm: Exact, invalid: None }
     };
 }
 
@@ -81,7 +82,7 @@ const CONTROL_BINARY: &[FieldSpec] = &[
     text!("Architecture", "any", "linux-any"),
     text!("Section", "libs", "non-free/devel"),
     f!("Priority", false, ["optional", "important", "standard"], Normal, Some("superfluous")),
-    f!("Multi-Arch", false, ["same", "foreign", "allowed"], Normal, Some("yes")),
+    f!("Multi-Arch", false, ["same", "foreign", "allowed", "no"], Normal, Some("yes")),
     f!("Essential", false, ["yes", "no"], Exact, Some("true")),
     text!("Description", "a short description", "a short description\nA longer one\n.\nwith a second block"),
 ];
@@ -144,7 +145,7 @@ const APT_PACKAGE: &[FieldSpec] = &[
     f!("Version", true, ["2.1.10", "2:1.2.3+dfsg-4~bpo12+1", "1.0-1"], Normal, Some("1.0_1")),
     f!("Architecture", true, ["amd64", "all"], Exact, None),
     text!("Maintainer", "APT Development Team <apt@lists.debian.org>", "Joe Bloggs <joe@example.com>"),
-    f!("Installed-Size", false, ["3524", "1"], Normal, Some("12k")),
+    f!("Installed-Size", false, ["3524", "1", "4294967296", "18446744073709551615"], Normal, Some("18446744073709551616")),
     rel!("Depends"),
     rel!("Pre-Depends"),
     rel!("Recommends"),
@@ -162,7 +163,7 @@ const APT_PACKAGE: &[FieldSpec] = &[
     // plain bool
     f!("Essential", false, ["true", "false"], Normal, Some("maybe")),
     text!("Tag", "admin::package-management", "admin::package-management, role::program"),
-    f!("Size", false, ["1234567", "0"], Normal, Some("-1")),
+    f!("Size", false, ["1234567", "0", "4294967296", "18446744073709551615"], Normal, Some("-1")),
     text!("MD5sum", "d41d8cd98f00b204e9800998ecf8427e", "0cc175b9c0f1b6a831c399e269772661"),
     text!("SHA256", "e3b0c44298fc1c149afbf4c8996fb92427ae41e4649b934ca495991b7852b855", "ca978112ca1bbdcafac231b39a23dc4da786eff8147c4e72b9807785afee48bb"),
     text!("Description-MD5", "9fb97a88cb7383934ef963352b53b4a7", "0cc175b9c0f1b6a831c399e269772661"),
@@ -275,7 +276,7 @@ const REMOVAL: &[FieldSpec] = &[
     f!("Sources", false, ["foo_1.0-1", "foo_1.0-1\nbar_2.0-1"], Lines, None),
     f!("Binaries", false, ["foo_1.0-1 [amd64]", "foo_1.0-1 [amd64]\nlibfoo1_1.0-1 [amd64, i386]"], Lines, None),
     f!("Reason", true, ["ROM; obsolete", "RoQA; dead upstream"], Exact, None),
-    f!("Bug", false, ["123456", "1"], Normal, Some("12a")),
+    f!("Bug", false, ["123456", "1", "4294967295"], Normal, Some("4294967296")),
 ];
 
 pub fn specs() -> Vec<ParaSpec> {
